@@ -534,8 +534,17 @@ impl<'tcx> Cx<'tcx> {
                     .iter()
                     .map(|x| esc(&self.ty(x.node.ty(&body.local_decls, self.tcx))))
                     .collect();
+                let macros: Vec<String> = if fn_span.from_expansion() {
+                    fn_span
+                        .macro_backtrace()
+                        .map(|e| esc(&e.kind.descr().to_string()))
+                        .collect()
+                } else {
+                    Vec::new()
+                };
                 format!(
-                    "{{\"t\":\"call\",\"callee\":{},\"args\":{},\"arg_tys\":{},\"dst\":{},\"target\":{},\"unwind\":{},\"from_expansion\":{},\"span\":{}}}",
+                    "{{\"t\":\"call\",\"macros\":{},\"callee\":{},\"args\":{},\"arg_tys\":{},\"dst\":{},\"target\":{},\"unwind\":{},\"from_expansion\":{},\"span\":{}}}",
+                    join(macros),
                     self.callee(owner, body, func),
                     join(a),
                     join(aty),
